@@ -250,6 +250,15 @@ def body(chk):
         flat.append((f, "s", lo, hi, k, out))
     # array-valued forms: element by element the same as the scalar form
     n_vec = 40 if chk.tier == "quick" else 500
+    # the witnesses of the open findings O28-sin / O28-cos, re-examined (and printed while they persist) in every run
+    for f in ("sin", "cos"):
+        ivs = [(-3 * PI / 2, -3 * PI / 2), (0.0, 1.0)]
+        chk.count(f"witness-O28-{f}", key=("O28", f))
+        out = run_vector(f, ivs, 0)
+        s0 = run_scalar(f, ivs[0][0], ivs[0][1], 0)
+        if out[0] == "ok" and s0[0] == "ok" and (out[1][0], out[2][0]) != (s0[1], s0[2]):
+            chk.report(f"Interval.{f}:vector:grid-boundary", f"element 0 of the array form is [{out[1][0]!r}, {out[2][0]!r}], the scalar form gives {s0[1:]}",
+                       {"kind": "witness", "f": f, "intervals": ivs})
     for i in range(n_vec):
         f = FUNS[i % len(FUNS)]
         if f in ("tanh", "sigmoid") and False:
